@@ -33,6 +33,8 @@ func verifPairs() []verifPair {
 		{"out-ref", "out \"o\" {\n  value = var.v\n}\n", "{ \"out\": { \"o\": { \"value\": \"${ var.v }\" } } }\n", 2},
 		{"out-deps", "out \"o\" {\n  value = 1\n  deps = [ aws.a ]\n}\n", "{ \"out\": { \"o\": { \"value\": 1, \"deps\": [ \"aws.a\" ] } } }\n", 2},
 		{"data", "data \"d\" {\n  id = \"i\"\n  obj {\n    w = 1\n  }\n}\n", "{ \"data\": { \"d\": { \"id\": \"i\", \"obj\": { \"w\": 1 } } } }\n", 2},
+		{"opt-member", "opt \"o\" {\n  x = var.v\n  member {\n    who = var.v\n  }\n}\n",
+			"{ \"opt\": { \"o\": { \"x\": \"${var.v}\", \"member\": { \"who\": \"${var.v}\" } } } }\n", 2},
 		{"mixed", "top = \"t\"\nvariable \"v\" {\n  type = number\n}\nout \"o\" {\n  value = var.v\n}\n",
 			"{ \"top\": \"t\", \"variable\": { \"v\": { \"type\": \"number\" } }, \"out\": { \"o\": { \"value\": \"${ var.v }\" } } }\n", 2},
 	}
